@@ -127,6 +127,7 @@ func loadProgram(repo string, goarch string) (*Program, error) {
 			return nil, fmt.Errorf("package %s not loaded", need)
 		}
 	}
+	computeFieldRoles(p)
 	computeCursorParams(p)
 	computePassThroughWriters(p)
 	return p, nil
